@@ -650,23 +650,9 @@ fn eq_object_structural_contract(xh: bool, yh: bool) {
     std::mem::forget((a, b, xo, yo));
 }
 
-// EXPERIMENT (one direction only, both objects one key)
-#[kani::proof]
-#[kani::unwind(3)]
-#[kani::stub(alloc::fmt::format, fmt_stub)]
-fn c10_eq_object_one_key_single() {
-    let x: i64 = kani::any();
-    let y: i64 = kani::any();
-    let a = Value::Object(int_object(true, x));
-    let b = Value::Object(int_object(true, y));
-    let r_ab = eq(&a, &b);
-    assert!(ok_val(&r_ab) == Some(x == y), "equality_depends_only_on_shape_and_contents");
-    kani::cover!(x == y, "cover_equal");
-    kani::cover!(x != y, "cover_not_equal");
-    std::mem::forget(r_ab);
-    std::mem::forget((a, b));
-}
-
+// DROPPED (measured): two objects with one key each -- `eq` then iterates one BTreeMap and looks the
+// String key up in the other; even a single one-directional call does not finish in 300 s.
+// Only the cells that stop at the identity or the length short-cut are under contract here.
 #[kani::proof]
 #[kani::unwind(4)]
 #[kani::stub(alloc::fmt::format, fmt_stub)]
